@@ -18,6 +18,8 @@ import Proofs.VdrRefuse
 import Proofs.VdrFinal
 import Proofs.VdrFs
 import Proofs.VdrHyp
+import Martian.VdrWalk
+import Proofs.VdrWalk
 
 namespace Props.C14
 open Martian.Vdr
@@ -88,6 +90,40 @@ theorem removed_in_place_or_nothing (c : Cfg) (s0 : St) (evs : List Ev) (root : 
     rw [(run_refused c s0 evs href).2.1, fr] at hd
     cases hd
 
+/-- **inside_pipestance_walked.**  `ParentsReal` is not an assumption for what the
+walk enumerates: if the fork's entries are what `util.Walk` reports below a
+directory `root` whose content is the (well-formed: names non-empty, without
+separator, pairwise different) tree `t` — the walk reports a symbolic link as
+a link and descends into real directories only —, then under every
+interleaving every removed path has only real directories between `root` and
+itself, is therefore acted on where it is written (`throughLink e p = p` for
+every link `e` below `root`), and that place is inside `root`.  (Links ABOVE
+`root`: the node's directory and the pipelines' above it are checked by
+`Node.vdrCheckSymlink` — a fork below a link is refused,
+`removed_in_place_or_nothing` —; the fork and job directories between the
+node directory and the walk roots are created by mrp itself and not modelled.) -/
+theorem inside_pipestance_walked (c : Cfg) (s0 : St) (evs : List Ev) (root : Path) (t : FsTree)
+    (hw : t.wf = true) (fr : s0.removed = [])
+    (hdisk : ∀ d ∈ s0.disk, ∃ k, (d.path, k) ∈ walkBelow root t) :
+    ∀ d ∈ (run c s0 evs).removed,
+      pathIsInside d.path root = true ∧ ParentsReal (entsBelow root t) d.path ∧
+      ∀ e ∈ entsBelow root t, throughLink e d.path = d.path := by
+  intro d hd
+  rcases (shr_run c s0 evs).removed d hd with h1 | h1
+  · rw [fr] at h1; cases h1
+  · obtain ⟨k, hk⟩ := hdisk d h1
+    have hp := walkBelow_parentsReal t hw root d.path k hk
+    exact ⟨walkBelow_inside t root d.path k hk, hp, parentsReal_acts_in_place _ _ hp⟩
+
+/-- the walk does not follow a link at its root (fix 950c00b) nor below it: a tree with a
+directory, a link to a directory outside, a cycle and a dangling link -/
+theorem walk_reports_links_as_links :
+    let t : FsTree := .dir "d".toList (.file "x".toList 1 (.link "up".toList "..".toList .nil))
+      (.link "ext".toList "/outside".toList (.link "gone".toList "nowhere".toList .nil))
+    t.wf = true ∧
+    (walk "/r".toList (.dir t)).map (fun x => String.ofList x.1) = ["/r", "/r/d", "/r/d/x", "/r/d/up", "/r/ext", "/r/gone"] ∧
+    (walk "/r/ext".toList (.link "/outside".toList)) = [("/r/ext".toList, .link)] := by decide
+
 /-- Without `ParentsReal` the lexical statement is worthless — the defect of
 the walk that followed a link at its root: the entry `/ps/files/ref/x.txt`
 recorded below the link `/ps/files/ref -> /ext` is lexically inside `/ps`,
@@ -132,8 +168,8 @@ theorem report_undercounts_nested_link :
     let c : Cfg := { volatile := true, strict := true, splits := false
                      argNames := [("a", ["/p/f/t".toList])], argFiles := [("a", ["/p/f/t".toList])] }
     let s : St := { fileArgs := [("a", [none])], postNodes := [],
-                    disk := [⟨"/p/f/t".toList, 1, .out, []⟩, ⟨"/p/f/sub".toList, 4096, .out, []⟩,
-                             ⟨"/p/f/sub/l".toList, 6, .out, ["/p/f/t".toList]⟩] }
+                    disk := [⟨"/p/f/t".toList, 1, .out, [], 0⟩, ⟨"/p/f/sub".toList, 4096, .out, [], 0⟩,
+                             ⟨"/p/f/sub/l".toList, 6, .out, ["/p/f/t".toList], 0⟩] }
     (run c s [.cacheMap, .kill]).removed.length = 2 ∧ (run c s [.cacheMap, .kill]).report.count = 1 := by
   decide
 
@@ -184,7 +220,7 @@ theorem reclaim_needs_consistency :
     let c : Cfg := { volatile := true, strict := true, splits := false
                      argNames := [("a", ["/p/files/a".toList])], argFiles := [("a", ["/p/files/a".toList])] }
     let s : St := { fileArgs := [("a", [some "C"])], postNodes := [("C", [])],
-                    disk := [⟨"/p/files/a".toList, 1, .out, []⟩] }
+                    disk := [⟨"/p/files/a".toList, 1, .out, [], 0⟩] }
     (run c s [.removeEmpty, .cacheMap, .nodeDone "C", .kill]).disk.map (·.path) = ["/p/files/a".toList] := by
   decide
 
@@ -242,7 +278,7 @@ while the other entry stays (a file system has one entry per path). -/
 theorem listed_needs_one_entry_per_path :
     let c : Cfg := { volatile := false, strict := false, splits := false, argNames := [], argFiles := [] }
     let s : St := { fileArgs := [], postNodes := [],
-                    disk := [⟨"/p/x".toList, 1, .tmp 1, []⟩, ⟨"/p/x".toList, 1, .out, []⟩] }
+                    disk := [⟨"/p/x".toList, 1, .tmp 1, [], 0⟩, ⟨"/p/x".toList, 1, .out, [], 0⟩] }
     (run c s [.early 2]).report.paths = ["/p/x".toList] ∧
     (run c s [.early 2]).disk.map (·.path) = ["/p/x".toList] := by decide
 
@@ -335,8 +371,8 @@ temp entries and the chunk file it removed -/
 example :
     let c : Cfg := { volatile := false, strict := false, splits := true, argNames := [], argFiles := [] }
     let s : St := { fileArgs := [], postNodes := [],
-                    disk := [⟨"/p/c0/files/x".toList, 4, .chunk, []⟩, ⟨"/p/j/files/o".toList, 9, .out, []⟩,
-                             ⟨"/p/j/tmp/t".toList, 3, .tmp 2, []⟩, ⟨"/p/c0/tmp/d".toList, 4096, .tmp 1, []⟩] }
+                    disk := [⟨"/p/c0/files/x".toList, 4, .chunk, [], 0⟩, ⟨"/p/j/files/o".toList, 9, .out, [], 0⟩,
+                             ⟨"/p/j/tmp/t".toList, 3, .tmp 2, [], 0⟩, ⟨"/p/c0/tmp/d".toList, 4096, .tmp 1, [], 0⟩] }
     s.report.paths = [] ∧ PathKinds s.disk ∧
     (run c s [.early 2, .kill]).report.paths =
       ["/p/c0/tmp/d".toList, "/p/j/tmp/t".toList, "/p/c0/files/x".toList] := by
@@ -353,8 +389,8 @@ example :
                      argNames := [("a", ["/p/f/real/x".toList])], argFiles := [("a", ["/p/f/real/x".toList])]
                      initArgs := [("a", [none])] }
     let s : St := { fileArgs := [("a", [none])], postNodes := [],
-                    disk := [⟨"/p/f/real".toList, 4096, .out, []⟩, ⟨"/p/f/real/x".toList, 1, .out, []⟩,
-                             ⟨"/p/f/lnk".toList, 6, .out, ["/p/f/real/x".toList]⟩, ⟨"/p/f/junk".toList, 3, .out, []⟩] }
+                    disk := [⟨"/p/f/real".toList, 4096, .out, [], 0⟩, ⟨"/p/f/real/x".toList, 1, .out, [], 0⟩,
+                             ⟨"/p/f/lnk".toList, 6, .out, ["/p/f/real/x".toList], 0⟩, ⟨"/p/f/junk".toList, 3, .out, [], 0⟩] }
     cfgOKB c s = true ∧ sepB s.disk = true ∧ linksTopB s.disk = true ∧
     (run c s [.cacheMap, .kill]).disk.map (·.path) = ["/p/f/real".toList, "/p/f/real/x".toList, "/p/f/lnk".toList] ∧
     (run c s [.cacheMap, .kill]).report.count = 1 ∧ (run c s [.cacheMap, .kill]).removed.length = 1 := by
@@ -366,9 +402,9 @@ final cleanup give the same -/
 example :
     let c : Cfg := { volatile := false, strict := false, splits := true, argNames := [], argFiles := [] }
     let s : St := { fileArgs := [], postNodes := [],
-                    disk := [⟨"/p/s/tmp/a".toList, 2, .tmp 0, []⟩, ⟨"/p/c0/tmp/d".toList, 4096, .tmp 1, []⟩,
-                             ⟨"/p/j/tmp/t".toList, 3, .tmp 2, []⟩, ⟨"/p/c0/files/x".toList, 4, .chunk, []⟩,
-                             ⟨"/p/j/files/o".toList, 9, .out, []⟩] }
+                    disk := [⟨"/p/s/tmp/a".toList, 2, .tmp 0, [], 0⟩, ⟨"/p/c0/tmp/d".toList, 4096, .tmp 1, [], 0⟩,
+                             ⟨"/p/j/tmp/t".toList, 3, .tmp 2, [], 0⟩, ⟨"/p/c0/files/x".toList, 4, .chunk, [], 0⟩,
+                             ⟨"/p/j/files/o".toList, 9, .out, [], 0⟩] }
     (run c s [.kill]).final = true ∧ (run c s [.kill]).disk.map (·.path) = ["/p/j/files/o".toList] ∧
     (run c s [.early 1, .restart, .kill]).disk.map (·.path) = ["/p/j/files/o".toList] ∧
     (run c s [.early 1, .restart, .kill]).report.count = 4 ∧
@@ -412,8 +448,8 @@ and the report says 3 entries / 4103 bytes -/
 example :
     let c : Cfg := { volatile := false, strict := false, splits := true, argNames := [], argFiles := [] }
     let s : St := { fileArgs := [], postNodes := [],
-                    disk := [⟨"/p/c0/files/x".toList, 4, .chunk, []⟩, ⟨"/p/j/files/o".toList, 9, .out, []⟩,
-                             ⟨"/p/j/tmp/t".toList, 3, .tmp 2, []⟩, ⟨"/p/c0/tmp/d".toList, 4096, .tmp 1, []⟩] }
+                    disk := [⟨"/p/c0/files/x".toList, 4, .chunk, [], 0⟩, ⟨"/p/j/files/o".toList, 9, .out, [], 0⟩,
+                             ⟨"/p/j/tmp/t".toList, 3, .tmp 2, [], 0⟩, ⟨"/p/c0/tmp/d".toList, 4096, .tmp 1, [], 0⟩] }
     ((run c s [.early 2, .kill]).disk.map (·.path) = ["/p/j/files/o".toList]) ∧
     (run c s [.early 2, .kill]).report.count = 3 ∧ (run c s [.early 2, .kill]).report.size = 4103 := by
   decide
